@@ -255,6 +255,11 @@ type Defects struct {
 	// InverseOrderedDropsNull: Filter.Inverse / Not(leaf) on <,<=,>,>= is
 	// evaluated as the opposite comparator, which is false for null/NaN.
 	InverseOrderedDropsNull bool
+	// FilteredApply assigns constants / copied columns / the built-in enum
+	// ToUpper to all rows instead of the rows matching the clause only.
+	FilteredApplyConstAllRows     bool
+	FilteredApplyCopyAllRows      bool
+	FilteredApplyEnumUpperAllRows bool
 }
 
 type Evaluator struct {
